@@ -302,7 +302,9 @@ func (s *SendStream) popNewOrRetransmittedStreamFrame(maxBytes protocol.ByteCoun
 	if f.DataLen() == maxDataLen && s.flowController.IsNewlyBlocked() {
 		blocked = &wire.StreamDataBlockedFrame{StreamID: s.streamID, MaximumStreamData: s.writeOffset}
 	}
-	f.Fin = s.finishedWriting && s.dataForWriting == nil && s.nextFrame == nil && !s.finSent
+	// After a reset, the final size is conveyed by the RESET_STREAM_AT frame.
+	// The data up to the reliable size might not be all the data that was written: don't set the FIN bit.
+	f.Fin = s.finishedWriting && s.dataForWriting == nil && s.nextFrame == nil && !s.finSent && s.resetErr == nil
 	if f.Fin {
 		s.finSent = true
 	}
@@ -534,6 +536,8 @@ func (s *SendStream) CancelWrite(errorCode StreamErrorCode) {
 					retransmissionQueue = append(retransmissionQueue, f)
 				} else {
 					f.Data = f.Data[:reliableOffset-f.Offset]
+					// the truncated frame doesn't end at the final size of the stream anymore
+					f.Fin = false
 					retransmissionQueue = append(retransmissionQueue, f)
 				}
 			}
@@ -721,6 +725,8 @@ func (s *sendStreamAckHandler) OnLost(f wire.Frame) {
 		// truncate the frame to the reliable size.
 		if sf.Offset+sf.DataLen() > (*SendStream)(s).reliableOffset() {
 			sf.Data = sf.Data[:(*SendStream)(s).reliableOffset()-sf.Offset]
+			// the truncated frame doesn't end at the final size of the stream anymore
+			sf.Fin = false
 		}
 	}
 
